@@ -4,9 +4,12 @@ import (
 	"bytes"
 	"errors"
 	"fmt"
+	"io"
 	"net"
+	"os"
 	"sync"
 	"sync/atomic"
+	"syscall"
 	"time"
 
 	"verifharness/internal/vh"
@@ -18,6 +21,11 @@ type Action struct {
 	Write []byte // bytes to write (may be nil)
 	Cuts  []int  // optional segmentation of Write
 	Close bool   // close the connection afterwards
+	// Reset (with Close): abort the connection instead of closing it in an
+	// orderly way. Over TCP this is a close with SO_LINGER 0 (the peer gets a
+	// RST); in memory the peer's reads fail with ECONNRESET once the bytes
+	// written so far have been read.
+	Reset bool
 	// Delay is slept before writing (workloads whose trigger is a connection age).
 	Delay time.Duration
 	// NoRead (early answers only): after writing, never read another byte of
@@ -54,8 +62,9 @@ type Origin struct {
 	reqs []Received
 	cs   []net.Conn
 	n    int
-	shut bool
-	done chan struct{}
+	shut  bool
+	peers map[net.Conn]*resetConn
+	done  chan struct{}
 	wg   sync.WaitGroup
 
 	in, out int64
@@ -103,8 +112,30 @@ func (o *Origin) Dial() (net.Conn, error) {
 		return nil, errors.New("h1x origin: shut down")
 	}
 	a, b := vh.Pipe(o.cap, "10.1.1.1:40000", "10.2.2.2:80")
+	w := &resetConn{PipeConn: a}
+	o.mu.Lock()
+	if o.peers == nil {
+		o.peers = map[net.Conn]*resetConn{}
+	}
+	o.peers[b] = w
+	o.mu.Unlock()
 	o.start(b)
-	return a, nil
+	return w, nil
+}
+
+// resetConn is the proxy-side end of an in-memory upstream connection; after
+// the origin aborted, the end of the stream is reported as a connection reset.
+type resetConn struct {
+	*vh.PipeConn
+	aborted int32
+}
+
+func (c *resetConn) Read(p []byte) (int, error) {
+	n, err := c.PipeConn.Read(p)
+	if err == io.EOF && atomic.LoadInt32(&c.aborted) != 0 {
+		err = &net.OpError{Op: "read", Net: "tcp", Source: c.LocalAddr(), Addr: c.RemoteAddr(), Err: os.NewSyscallError("read", syscall.ECONNRESET)}
+	}
+	return n, err
 }
 
 func (o *Origin) start(c net.Conn) {
@@ -145,6 +176,20 @@ func (o *Origin) perform(c net.Conn, a Action) bool {
 			return false
 		}
 		prev = cut
+	}
+	if a.Close && a.Reset {
+		if tc, ok := c.(*net.TCPConn); ok {
+			tc.SetLinger(0)
+			tc.Close()
+		} else {
+			o.mu.Lock()
+			w := o.peers[c]
+			o.mu.Unlock()
+			if w != nil {
+				atomic.StoreInt32(&w.aborted, 1)
+			}
+			c.Close()
+		}
 	}
 	return !a.Close
 }
